@@ -109,12 +109,16 @@ def vqe_case(ctx, rng, molname, frozen, mapping, utd, variant):
         if d1 > 1e-7 or d2 > 1e-7:
             ctx.violation(f"VQE RDMs are not Hermitian (defects {d1:.2e}, {d2:.2e}) ({molname}, {mapping})", c)
             return False
-        # the state conserves the particle number for closed shells and under JW (C12); otherwise compare with <N> of the same state
+        # the trace is <N> of the same state; it is the number of active electrons when that state conserves it. The
+        # word-by-word product that implements UCCSD is not bound to (H4 under JKMN: <N> = 4.08 for generic parameters),
+        # so conservation is read off the state: <N> = n_e and zero variance.
         n_state = s.operator_expectation("N", theta)
         if abs(np.trace(r1) - n_state) > 1e-7:
             ctx.violation(f"trace of the VQE 1-RDM is {np.trace(r1)!r}, <N> of the same state is {n_state!r}", c)
             return False
-        if (mapping == "JW" or mol.active_spin == 0) and abs(np.trace(r1) - mol.n_active_electrons) > 1e-7:
+        conserves = not any(theta) or abs(n_state - mol.n_active_electrons) < 1e-9
+        ctx.count("vqe:state-conserves-N" if conserves else "vqe:state-does-not-conserve-N")
+        if conserves and abs(np.trace(r1) - mol.n_active_electrons) > 1e-7:
             ctx.violation(f"trace of the VQE 1-RDM is {np.trace(r1)!r}, active electrons {mol.n_active_electrons}", c)
             return False
         s1, s2 = s.get_rdm(theta, sum_spin=False)
